@@ -253,13 +253,13 @@ CHECK_DEADLOCK FALSE
 def stage(ck, quick, seed, tlc, PID):
     """model checking of LlcpConn + validation of real handshakes; contributes to C05's evidence"""
     import os, collections
-    r = tlc.run("LlcpConn.tla", "MC_LlcpConn.cfg", PID, workers=8, timeout=600)
+    r = tlc.run("LlcpConn.tla", "MC_LlcpConn_quick.cfg" if quick else "MC_LlcpConn.cfg", PID, workers=8, timeout=900)
     r2 = tlc.run("LlcpConn.tla", "MC_LlcpConn_nolisten.cfg", PID, workers=4, timeout=300)
     for x in (r, r2):
         if not x.ok:
             ck.violation("spec:LlcpConn:" + ",".join(x.violated or ["?"]), "TLC: %s" % str(x.error_trace)[:1200])
         ck.cover(states=x.distinct, transitions=x.generated)
-    hit, _ = tlc.witnesses("LlcpConn.tla", "MC_LlcpConn.cfg", PID, ["W_Established", "W_Busy", "W_Closed", "W_PeerClosed"])
+    hit, _ = tlc.witnesses("LlcpConn.tla", "MC_LlcpConn_quick.cfg", PID, ["W_Established", "W_Busy", "W_Closed", "W_PeerClosed"])
     if len(hit) != 4:
         raise tlc.TLCError("vacuous LlcpConn model: %s" % sorted(hit))
     groups = collections.defaultdict(list)
